@@ -112,5 +112,22 @@ ADD = {
  "C19": "Also decided: certchain's look-back list receives a certificate only after every check of its own iteration passed; the oracle's threshold and scaling are exact (shared with C08) (C19.R3–R4b).",
  "C20": "Also decided: the explore distance is clamped on its own value to [min/100, max/2]; poll outcomes are booked under their own tracker method; the poller advance rules shared with C16 (C20.R3, R5, R6).",
 }
+ADD2 = {
+ "C01": "The lookups of the validation cache are read-only; an honest node's wire discipline (filter ≺ WAL ≺ publish, the runner's own filter re-armed from the WAL) shared with C12 (C01.R7g, R8).",
+ "C02": "Validation-cache lookups are read-only (C02.R6f).",
+ "C03": "Validation-cache lookups are read-only; the committee's aggregate verifier is built over the keys of the committee's own sorted table (C03.R5, R6c).",
+ "C06": "Also: the participant can always use its own proposal — a value adopted at COMMIT is a candidate on every path, late QUALITY extends candidates from the input, the start truncates before it validates; after a decision the alarm is re-programmed (C06.R1, R5).",
+ "C07": "A value adopted at COMMIT is made a candidate on every path (C07.R6).",
+ "C08": "PowerTable.Copy clones its slices and map; the message validator applies the threshold on every presentation (rules shared with C05) (C08.R4, R5).",
+ "C10": "CreateStore decides existence on the first-instance marker alone, so an interrupted creation can be repeated (C10.R2).",
+ "C11": "The entry is marshalled into a buffer local to the Append call (C11.R1).",
+ "C13": "Both completion paths install the chain before inferring the justification value; cache lookups read-only (C13.R4, R11).",
+ "C14": "AllPrefixes hands out capacity-limited prefixes; bytes prepared for signing are freshly allocated (C14.R1, R2).",
+ "C15": "The committee's aggregate verifier uses the keys of its own sorted table (C15.R5).",
+ "C19": "certchain.GetCommittee writes no generator state (no memo across Generate) (C19.R3).",
+ "C12": "The WAL replay re-arms the runner's own filter (C12.R4).",
+}
+for _pid, _extra in ADD2.items():
+    ADD[_pid] = ADD.get(_pid, "") + " " + _extra
 for _pid, _extra in ADD.items():
     CLAIMED[_pid]['text'] += ' ' + _extra
